@@ -430,6 +430,13 @@ def check(model, rep):
     rep.count('Arm methods solving through the IK entry points', n712)
     rep.floor('R07.12', 'Arm methods solving through the IK entry points', n712, 1)
 
+    # ---------------------------------------------------------------- R07.13
+    # Between the joint vector a solver verified and the one that is returned and stored sits fsr.angleMod (Arm.FK wraps the vector in place
+    # before evaluating it; IK(protect=True) wraps the solver's answer): the wrap must hand back an angle congruent to the one it was given
+    rep.rule('R07.13', 'the angle wrap the solvers\' answers pass through (fsr.angleMod and its siblings) replaces an angle by its remainder modulo 2*pi only: '
+                       'the vector returned and stored is the configuration the solver verified')
+    from .c18 import wrap_store_rule as _wsr
+    _wsr(model, rep, 'R07.13')
     # ---------------------------------------------------------------- R07.9
     rep.rule('R07.9', 'IKinSpaceConstrained: the pose error that can end the search is never evaluated for an unclamped joint vector - the start '
                       'vector is clamped before the first evaluation (or by the caller)')
